@@ -306,7 +306,7 @@ func c02Proc(c c02Case, rep *Report) (status uint32, answered bool, ended bool, 
 
 func c02(env *Env, rep *Report) {
 	rep.Rule = "from a token minted by the real GeneratePAAToken in this run: every single-character substitution at every position with each of 67 characters; every single-bit flip of the decoded header, payload and signature; every truncation; segment counts 0..6 and arbitrary strings; re-signing (alg none unsecured / with MAC, HS384, HS512, HS256 under 5 other keys, RS256, embedded JWK, crit / b64 headers); claims signed with the right key (8 issuers, exp x nbf and exp x iat over {absent, now-1h, now-70s, now-50s, now, now+50s, now+70s, now+1h}, odd exp types, unknown / empty access token); JSON flattened / general serialisation and nested JWS; x identity-provider behaviours {honours, unknown, revoked, 500, transport error}. " +
-		"Every string goes to security.CheckPAACookie; every string of the non-mutation classes and every 7th mutation (thorough: all) additionally travels UTF-16 encoded in a TUNNEL_CREATE packet through the real Processor wired as main.go does. Oracle (three-valued, computed with crypto/hmac over the raw text): must-refuse strings must be refused (at the Processor: status E_PROXY_COOKIE_AUTHENTICATION_ACCESS_DENIED, tunnel ended, next packet unanswered), the minted token must be accepted, the rest is unspecified. distinct_nontrivial = distinct cookie strings x IdP behaviours."
+		"Every string goes to security.CheckPAACookie; every string of the non-mutation classes and every 7th mutation (thorough: all) additionally travels UTF-16 encoded in a TUNNEL_CREATE packet through the real Processor wired as main.go does. Plus histories in one process: the same minted cookie presented repeatedly while the IdP changes between honouring, revoking, failing and recovering (7 sequences, checker and Processor): every presentation must follow the IdP's verdict at that moment. Oracle (three-valued, computed with crypto/hmac over the raw text): must-refuse strings must be refused (at the Processor: status E_PROXY_COOKIE_AUTHENTICATION_ACCESS_DENIED, tunnel ended, next packet unanswered), the minted token must be accepted, the rest is unspecified. distinct_nontrivial = distinct cookie strings x IdP behaviours."
 	rep.Assumptions = append(rep.Assumptions, "expiry boundary cases keep 10 s distance from the 60 s leeway (no sub-second wall-clock oracle)", "a signature segment that base64-decodes to the same 32 bytes is the same signature (classified by decoded value)",
 		"identity provider is a scripted http.RoundTripper behind the real go-oidc provider object")
 	InstallIdP()
@@ -386,6 +386,34 @@ func c02(env *Env, rep *Report) {
 				show = show[:120] + "…"
 			}
 			rep.sample(map[string]any{"class": c.Class, "name": c.Name, "idp": c.IdP, "expected": c.Expect, "accepted": ok, "cookie": show})
+		}
+	}
+	// histories: the same cookie presented again after the identity provider changed its mind
+	if env.Shard == 0 {
+		valid := cases[0].Cookie
+		for _, seq := range [][]string{{"honour", "revoked"}, {"honour", "error500"}, {"honour", "transport"}, {"honour", "unknown"}, {"honour", "honour", "revoked", "honour"}, {"revoked", "honour"}, {"transport", "honour", "transport"}} {
+			for _, via := range []string{"checker", "processor"} {
+				distinct++
+				var got []bool
+				for _, m := range seq {
+					c := c02Case{Cookie: valid, IdP: m}
+					if via == "checker" {
+						ok, _ := c02Direct(c)
+						rep.add("executions", 1)
+						got = append(got, ok)
+					} else {
+						st, ans, _, _, _ := c02Proc(c, rep)
+						got = append(got, ans && st == 0)
+					}
+				}
+				for i, m := range seq {
+					if got[i] != (m == "honour") {
+						rep.violate("C02/identity-provider-verdict-not-followed-on-repeated-presentation/"+via, fmt.Sprintf("same minted cookie presented under IdP behaviours %v: accepted=%v", seq, got), map[string]any{"noreplay": true})
+						break
+					}
+				}
+				rep.outcome(fmt.Sprintf("history %v via %s -> %v", seq, via, got))
+			}
 		}
 	}
 	for k, v := range counts {
